@@ -63,7 +63,7 @@ Proof.
     + rewrite lookup_insert_other in H by exact Hne. left. apply Hb. exact H.
 Qed.
 
-Lemma s_alloc_inv s ch p' : InvS s -> s_alloc (ss_p s) = (ch, p') -> InvS (mkSSt p' (ss_live s ++ [ch])).
+Lemma s_alloc_inv s ch p' lst : InvS s -> s_alloc (ss_p s) = (ch, p') -> InvS (mkSSt p' (ss_live s ++ [ch]) lst).
 Proof.
   intros [Hcnt Ha Hb]. unfold s_alloc.
   destruct (sc_cache (ss_p s)) as [|c0 t] eqn:Ec.
@@ -94,8 +94,8 @@ Proof.
     intros x. rewrite occ_app. specialize (Hcnt x). cbn [occ] in *. lia.
 Qed.
 
-Lemma s_free_inv lcache s l1 l2 ch : InvS s -> ss_live s = l1 ++ ch :: l2 ->
-  exists p', s_free lcache (ss_p s) ch = (true, p') /\ InvS (mkSSt p' (l1 ++ l2)).
+Lemma s_free_inv lcache s l1 l2 ch lst : InvS s -> ss_live s = l1 ++ ch :: l2 ->
+  exists p', s_free lcache (ss_p s) ch = (true, p') /\ InvS (mkSSt p' (l1 ++ l2) lst).
 Proof.
   intros [Hcnt Ha Hb] Hl. rewrite Hl in *.
   apply Forall_app in Ha as [Ha1 Ha2]. inversion Ha2 as [|? ? Hch Ha2']; subst.
@@ -117,17 +117,28 @@ Proof.
     intros x; specialize (Hcnt x); rewrite !occ_app in *; cbn [occ] in *; lia.
 Qed.
 
+(* a chunk that is not handed out is not in the active table: freeing it again is refused, nothing changes *)
+Lemma s_free_not_live lcache s ch : InvS s -> occ (fst ch) (ss_live s) = 0 -> s_free lcache (ss_p s) ch = (false, ss_p s).
+Proof.
+  intros [_ _ Hb] Hnl. unfold s_free.
+  destruct (act_lookup (fst ch) (sc_active (ss_p s))) as [g|] eqn:E; [|reflexivity].
+  exfalso. apply Hb in E. pose proof (occ_in (fst ch) _ _ E eq_refl). lia.
+Qed.
+
 Lemma s_step_inv lcache s o : InvS s -> InvS (fst (s_step lcache s o)).
 Proof.
-  intros HI. destruct o as [|k]; cbn [s_step].
-  - destruct (s_alloc (ss_p s)) as [ch p'] eqn:Ha. cbn [fst]. exact (s_alloc_inv s ch p' HI Ha).
+  intros HI. destruct o as [|k|]; cbn [s_step].
+  - destruct (s_alloc (ss_p s)) as [ch p'] eqn:Ha. cbn [fst]. exact (s_alloc_inv s ch p' _ HI Ha).
   - destruct (ss_live s) as [|e t] eqn:Hl; [exact HI|]. rewrite <- Hl.
     set (i := N.to_nat (k mod nlen (ss_live s))).
     assert (Hi : (i < length (ss_live s))%nat).
     { subst i. rewrite nlen_length. assert (0 < length (ss_live s))%nat by (rewrite Hl; cbn; lia). lia. }
     destruct (nth_split_remove (0, 0) (ss_live s) i Hi) as (l1 & l2 & E1 & E2 & _).
-    destruct (s_free_inv lcache s l1 l2 (nth i (ss_live s) (0, 0)) HI E1) as (p' & Hf & HI').
+    destruct (s_free_inv lcache s l1 l2 (nth i (ss_live s) (0, 0)) (Some (nth i (ss_live s) (0, 0))) HI E1) as (p' & Hf & HI').
     rewrite Hf. cbn [fst]. rewrite E2. exact HI'.
+  - destruct (ss_last s) as [ch|]; [|exact HI].
+    destruct (N.eqb_spec (occ (fst ch) (ss_live s)) 0) as [Hnl|_]; [|exact HI].
+    rewrite (s_free_not_live lcache s ch HI Hnl). cbn [fst]. destruct HI as [A B C]. constructor; assumption.
 Qed.
 Lemma s_run_inv lcache : forall ops s, InvS s -> InvS (fst (s_run lcache s ops)).
 Proof.
@@ -150,7 +161,7 @@ Lemma secure_free_accepted_proof lcache ops l1 l2 ch :
     (sc_cache p' = ch :: sc_cache (ss_p (s_final lcache ops)) \/ sc_stack p' = ch :: sc_stack (ss_p (s_final lcache ops))).
 Proof.
   intros Hl. pose proof (s_final_inv lcache ops) as HI. set (s := s_final lcache ops) in *.
-  destruct (s_free_inv lcache s l1 l2 ch HI Hl) as (p' & Hf & _). exists p'. split; [exact Hf|].
+  destruct (s_free_inv lcache s l1 l2 ch None HI Hl) as (p' & Hf & _). exists p'. split; [exact Hf|].
   destruct HI as [_ Ha _]. rewrite Hl in Ha. apply Forall_app in Ha as [_ Ha2]. inversion Ha2 as [|? ? Hch _]; subst.
   unfold s_free in Hf. rewrite Hch, N.eqb_refl in Hf.
   destruct (nlen (sc_cache (ss_p s)) <? lcache); inversion Hf; subst; cbn; auto.
@@ -171,16 +182,12 @@ Qed.
 Lemma secure_double_free_detected_proof lcache ops ch :
   let s := s_final lcache ops in
   occ (fst ch) (ss_live s) = 0 -> s_free lcache (ss_p s) ch = (false, ss_p s).
-Proof.
-  intros s Hnl. destruct (s_final_inv lcache ops) as [_ _ Hb]. fold s in Hb. unfold s_free.
-  destruct (act_lookup (fst ch) (sc_active (ss_p s))) as [g|] eqn:E; [|reflexivity].
-  exfalso. apply Hb in E. pose proof (occ_in (fst ch) _ _ E eq_refl). lia.
-Qed.
+Proof. intros s Hnl. apply s_free_not_live; [apply s_final_inv|exact Hnl]. Qed.
 
 (* ---------- the hypotheses are inhabited ---------- *)
 Example secure_history_example :
-  s_final 1 [SAl; SAl; SAl; SFr 0; SFr 0; SAl; SFr 1] =
-  mkSSt (mkSS [(0, 1)] [(1, 2)] 4 3 [(2, 3)]) [(2, 3)].
+  s_final 1 [SAl; SAl; SAl; SFr 0; SDbl; SFr 0; SAl; SFr 1] =
+  mkSSt (mkSS [(0, 1)] [(1, 2)] 4 3 [(2, 3)]) [(2, 3)] (Some (0, 1)).
 Proof. vm_compute. reflexivity. Qed.
 Example secure_free_example : exists l1 l2 ch, ss_live (s_final 1 [SAl; SAl; SAl; SFr 0]) = l1 ++ ch :: l2.
 Proof. exists [], [(2, 3)], (1, 2). vm_compute. reflexivity. Qed.
